@@ -21,6 +21,7 @@ mod limits;
 mod encode;
 mod images;
 mod corrupt;
+mod ffi;
 
 use std::collections::HashMap;
 
@@ -79,6 +80,7 @@ fn main() {
         "limits" => limits::main(&args),
         "images" => images::main(&args),
         "corrupt" => corrupt::main(&args),
+        "ffi" => ffi::main(&args),
         "summary-random" => summary::random_main(&args),
         "repr" => {
             // representability facts (reference encoder) for the characters the bounded models use
